@@ -2,3 +2,5 @@
 from contracts import sort_enforcement, chunk, general  # noqa
 from contracts import plugin  # noqa
 from contracts import pulse  # noqa
+from contracts import peaks  # noqa
+from contracts import selection  # noqa
